@@ -127,3 +127,43 @@ pub proof fn lemma_im_key_swap_remove<K, V>(s: Seq<(K, V)>, k: K)
     }
     assert(im_agree_except(s, r, k));
 }
+
+// ---- u32::next_power_of_two: the smallest power of two >= self (1 for 0); overflows (debug panic) above 2^31.
+pub uninterp spec fn spec_next_pow2(x: u32) -> u32;
+pub open spec fn spec_is_pow2(p: int) -> bool { exists|k: nat| k < 32 && p == vstd::arithmetic::power2::pow2(k) as int }
+pub broadcast axiom fn axiom_next_pow2(x: u32)
+    requires x <= 0x8000_0000u32,
+    ensures
+        (#[trigger] spec_next_pow2(x)) >= x, spec_next_pow2(x) >= 1, spec_is_pow2(spec_next_pow2(x) as int),
+        x >= 1 ==> spec_next_pow2(x) < 2 * x,
+        x <= 0x4000_0000u32 ==> spec_next_pow2(x) <= 0x4000_0000u32;
+// @broadcast axiom_next_pow2
+pub assume_specification [u32::next_power_of_two] (x: u32) -> (r: u32)
+    requires x <= 0x8000_0000u32,
+    ensures r == spec_next_pow2(x);
+
+// ---- R11 idiom: `v.iter().map(f).min()` over a Vec, for a key type with a total order ---------------------------
+// None iff v is empty; otherwise the key of some element that is <= the key of every element (f is called once per
+// element; std returns the first minimum, which matters only for keys that compare equal without being identical).
+pub open spec fn key_le<K: PartialOrd>(a: K, b: K) -> bool {
+    a.partial_cmp_spec(&b) == Some(Ordering::Less) || a.partial_cmp_spec(&b) == Some(Ordering::Equal)
+}
+pub trait IdiomIterMapMin<T> {
+    spec fn imm_view(&self) -> Seq<T>;
+    fn idiom_iter_map_min<K: Ord, F: Fn(&T) -> K>(&self, f: F) -> (r: Option<K>)
+        requires
+            forall|x: &T| #[trigger] f.requires((x,)),
+        ensures
+            self.imm_view().len() == 0 <==> r is None,
+            r matches Some(k) ==> (exists|i: int| 0 <= i < self.imm_view().len() && f.ensures((&#[trigger] self.imm_view()[i],), k))
+                && (K::obeys_partial_cmp_spec() ==> forall|i: int| #![trigger self.imm_view()[i]] 0 <= i < self.imm_view().len() ==> exists|ki: K| f.ensures((&self.imm_view()[i],), ki) && key_le(k, ki));
+}
+impl<T> IdiomIterMapMin<T> for Vec<T> {
+    open spec fn imm_view(&self) -> Seq<T> { self@ }
+    #[verifier::external_body]
+    fn idiom_iter_map_min<K: Ord, F: Fn(&T) -> K>(&self, f: F) -> (r: Option<K>) { unimplemented!() }
+}
+
+// ---- VecDeque::is_empty ----
+pub assume_specification<T, A: core::alloc::Allocator> [VecDeque::<T, A>::is_empty] (v: &VecDeque<T, A>) -> (b: bool)
+    ensures b == (v@.len() == 0);
